@@ -1,12 +1,14 @@
 package verifh
 
 import (
+	"context"
 	"fmt"
 
 	"github.com/cockroachdb/errors"
 	"github.com/cockroachdb/errors/extgrpc"
 	"github.com/cockroachdb/errors/exthttp"
 	"github.com/cockroachdb/errors/oserror"
+	"github.com/cockroachdb/logtags"
 	"google.golang.org/grpc/codes"
 	"verifh/sym"
 	"verifh/wire"
@@ -134,4 +136,54 @@ func H_C11_Codes(v *sym.V) {
 		v.Assert(fmt.Sprintf("grpc@hop%d", k), uint32(extgrpc.GetGrpcCode(c)) == grpc)
 	}
 	v.Assert("text", c.Error() == e.Error())
+}
+
+// H_C11_Many: the number of items carried by one annotation layer is a
+// dimension of its own: a telemetry layer with N keys, a context with N tags,
+// N hint and N detail layers (N from 1 to beyond 16 / 32 / 64; one key, one tag
+// value and one hint symbolic, the others concrete and pairwise distinct) are
+// identical before and after hops 1 and 2.
+func H_C11_Many(v *sym.V) {
+	sizes := []int{1, 2, 16, 17, 33, 65}
+	n := sizes[v.Choice("n", len(sizes))]
+	symAt := 0
+	if n > 1 && v.Choice("symlast", 2) == 1 {
+		symAt = n - 1
+	}
+	sv := v.Str("s", sym.REGNN, 1, 1)
+	item := func(prefix string, i int) string {
+		if i == symAt {
+			return prefix + sv
+		}
+		return fmt.Sprintf("%s%03d", prefix, i)
+	}
+	var e error = errors.New("x")
+	switch v.Choice("kind", 4) {
+	case 0:
+		keys := make([]string, n)
+		for i := range keys {
+			keys[i] = item("k", i)
+		}
+		e = errors.WithTelemetry(e, keys...)
+	case 1:
+		ctx := context.Background()
+		for i := 0; i < n; i++ {
+			ctx = logtags.AddTag(ctx, fmt.Sprintf("t%03d", i), item("v", i))
+		}
+		e = errors.WithContextTags(e, ctx)
+	case 2:
+		for i := 0; i < n; i++ {
+			e = errors.WithHint(e, item("h", i))
+		}
+	case 3:
+		for i := 0; i < n; i++ {
+			e = errors.WithDetail(e, item("d", i))
+		}
+	}
+	e = errors.Wrap(e, "w")
+	e1 := wire.Hop(e)
+	e2 := wire.Hop(e1)
+	annotationsEqual(v, "hop1", e, e1)
+	annotationsEqual(v, "hop2", e, e2)
+	v.Assert("many-keys@hop1", len(errors.GetTelemetryKeys(e1)) == len(errors.GetTelemetryKeys(e)))
 }
